@@ -1049,7 +1049,7 @@ pub fn run_c03_sweeps(tier: Tier, rep: &mut Report) {
 /// Large structured arguments: lists nested tens of thousands of levels deep, values of hundreds of
 /// kilobytes, lists of thousands of items. A stack overflow or abort cannot be caught in-process, so
 /// each case is journalled first; the driver turns an abnormal exit into a C03 violation naming it.
-fn c03_structured_big(rep: &mut Report) {
+pub fn c03_structured_big(rep: &mut Report) {
     use bytes::Bytes;
     let journal = format!("{}/evidence/parts/C03.{}.journal", crate::verif_dir(), crate::CFG);
     let _ = std::fs::create_dir_all(format!("{}/evidence/parts", crate::verif_dir()));
